@@ -691,6 +691,16 @@ def factory(t):
     return setter
 set_int, set_dec = factory(int), factory(decimal.Decimal)
 reg = Registry()
+def unann(a: int, b=3, *rest, sep=",", strict=False, ratio=1.5, tags=(), **kw):
+    return ("unann", a, b, rest, sep, strict, ratio, tags, kw)
+class Unann:
+    def __init__(self, a: int, b=3, *, title="x"):
+        self.state = ("Unann", a, b, title)
+    def m(self, a, b=0.5, name="n"):
+        return ("m", a, b, name)
+    def __repr__(self):
+        return repr(self.state)
+una = Unann("1")
 """
 ODD_CALLS = [
     ("reg.selfless", ("1", "2"), {"x": "3.5"}), ("reg.selfless", ("7",), {}), ("Registry.clsless", ("8", "9"), {"z": "1"}),
@@ -698,6 +708,9 @@ ODD_CALLS = [
     ("reg.sm", ("1", "2", "3"), {"q": 4}), ("Registry.sm", ("1",), {}), ("reg.plain", ("1", "2.5"), {"k": "3"}), ("reg.plain", ("1",), {"b": "7"}),
     ("Registry.plain", (None, "1", "2"), {}), ("base", ("1", "2", "3", "4"), {"k": 5, "z": "6"}), ("wrapped", ("1", "2"), {"k": 5}),
     ("set_int", ("1", "2"), {"x": "3"}), ("set_dec", ("1.50", "2.25"), {"x": "3"}), ("set_int", ("4",), {}),
+    # parameters WITHOUT annotation are untouched whatever their default is
+    ("unann", ("1", "2.5", "x", 7), {"sep": 0, "strict": "no", "ratio": "3", "tags": "ab", "extra": "1"}), ("unann", ("1", 2.5), {}),
+    ("unann", ("1",), {"b": "7", "strict": 1}), ("Unann", ("1", "120"), {"title": 7}), ("una.m", ("1", "2"), {"name": 5}),
     ("reg.selfless_kwonly", ("1",), {}),       # Python rejects: missing keyword-only argument
 ]
 
